@@ -30,6 +30,83 @@ static Polyhedron* clone(const Polyhedron& q) {
 
 using namespace pplv_io;
 
+// ---- status trace (--status-trace 1) ------------------------------------------------------
+// Every public call on a polyhedron is bracketed by `status` lines taken with ascii_dump on the
+// object itself (which does not change its state):
+//   status <slot> <10 flags> T d=<dim> n=<0|1> cs=<S|U>,<rows>,<first_pending> gs=<...> <phase> <method> [k=v ...]
+// phase: pre / post (receiver), apre / apost (argument of a binary call; omitted when it is the
+// receiver itself: alias=1).  Slot 9 is a temporary copy.  An exception leaves a `pre` without `post`.
+// Judged by pplv_polystatus (lean/Driver/PolyStatus.lean).  Without the flag nothing is emitted.
+static bool g_trace = false;
+static std::string tr_sys(const std::vector<std::string>& L, const char* name) {
+  for (size_t i = 0; i + 3 < L.size(); ++i)
+    if (L[i].compare(0, strlen(name), name) == 0) {
+      bool sorted = L[i + 2].find("(sorted)") != std::string::npos;
+      long rows = atol(L[i + 2].c_str());
+      long fp = atol(L[i + 3].c_str() + strlen("index_first_pending "));
+      OS o; o << (sorted ? "S" : "U") << "," << rows << "," << fp; return o.str();
+    }
+  return "?";
+}
+static std::string tr_state(const Polyhedron& q) {
+  OS d; q.ascii_dump(d);
+  std::vector<std::string> L; { std::istringstream in(d.str()); std::string l; while (std::getline(in, l)) L.push_back(l); }
+  OS o;
+  o << (L.size() > 1 ? L[1] : std::string("?")) << " T d=" << q.space_dimension() << " n=" << (g_nnc ? 1 : 0)
+    << " cs=" << tr_sys(L, "con_sys") << " gs=" << tr_sys(L, "gen_sys");
+  return o.str();
+}
+struct Tr {
+  int s, t; const Polyhedron* x; const Polyhedron* y; std::string what;
+  Tr(int s_, const Polyhedron* x_, const std::string& w, int t_ = -1, const Polyhedron* y_ = 0)
+    : s(s_), t(t_), x(x_), y(y_), what(w) {
+    if (!g_trace) return;
+    if (x && y == x) what += " alias=1";
+    if (x) emit(s, *x, "pre");
+    if (y && y != x) emit(t, *y, "apre");
+  }
+  void done(const Polyhedron* nx = 0) {      // nx: a receiver that only exists after the call (constructors)
+    if (!g_trace) return;
+    if (nx) x = nx;
+    emit(s, *x, "post");
+    if (y && y != x) emit(t, *y, "apost");
+  }
+  void emit(int slot, const Polyhedron& q, const char* ph) {
+    OS l; l << "status " << slot << " " << tr_state(q) << " " << ph << " " << what; J.line(l.str());
+  }
+};
+static std::string fact(const char* k, long v) { OS o; o << " " << k << "=" << v; return o.str(); }
+static Polyhedron* clone_tr(int d, int s, const Polyhedron& q) {   // copy construction, traced
+  Tr tr(d, 0, "copy_ctor", s, &q); Polyhedron* r = clone(q); tr.done(r); return r;
+}
+static bool expr_const(const Linear_Expression& e) {
+  for (dimension_type i = 0; i < e.space_dimension(); ++i) if (e.coefficient(Variable(i)) != 0) return false;
+  return true;
+}
+static bool expr_common(const Linear_Expression& a, const Linear_Expression& b) {
+  dimension_type m = std::min(a.space_dimension(), b.space_dimension());
+  for (dimension_type i = 0; i < m; ++i) if (a.coefficient(Variable(i)) != 0 && b.coefficient(Variable(i)) != 0) return true;
+  return false;
+}
+template <typename Sys> static long sys_rows(const Sys& y) {      // number of rows (has_no_rows() is private): from the dump
+  OS d; y.ascii_dump(d); std::istringstream in(d.str()); std::string l;
+  while (std::getline(in, l)) if (l.find(" x ") != std::string::npos) return atol(l.c_str());
+  return -1;
+}
+static bool gs_points(const Generator_System& gs) {
+  for (Generator_System::const_iterator i = gs.begin(); i != gs.end(); ++i) if (i->is_point()) return true;
+  return false;
+}
+static std::string cs_facts(const Constraint_System& cs) {
+  bool strict_ni = false;
+  for (Constraint_System::const_iterator i = cs.begin(); i != cs.end(); ++i) if (i->is_strict_inequality() && !i->is_inconsistent()) strict_ni = true;
+  return fact("norows", sys_rows(cs) == 0) + fact("nontriv", cs.begin() != cs.end()) + fact("hasstrict", cs.has_strict_inequalities())
+       + fact("strictni", strict_ni);
+}
+static std::string con_facts(const Constraint& c) {
+  return fact("strict", c.is_strict_inequality()) + fact("taut", c.is_tautological()) + fact("incons", c.is_inconsistent());
+}
+
 // ---- observation ------------------------------------------------------------------------
 struct Hist {
   Rng r;
@@ -41,6 +118,7 @@ struct Hist {
   long bias = -1;
   int last_slot = -1, last_arg = -1;
   std::set<std::string> status_seen;
+  int cur = -1;          // trace id of the object being observed (slot, or 9 for a temporary copy)
   Hist(uint64_t seed) : r(seed) {}
 
   dimension_type dim(int s) { return slot[s].p->space_dimension(); }
@@ -57,7 +135,8 @@ struct Hist {
     bool on_copy = r.chance(1, 2);
     std::unique_ptr<Polyhedron> cp;
     const Polyhedron* q = slot[s].p.get();
-    if (on_copy) { cp.reset(clone(*slot[s].p)); q = cp.get(); }
+    if (on_copy) { cp.reset(clone_tr(9, s, *slot[s].p)); q = cp.get(); }
+    cur = on_copy ? 9 : s;
     observe_sys(s, *q, r.below(2));
     observe_sys(s, *q, 2 + r.below(2));
     status_line(s);
@@ -74,10 +153,14 @@ struct Hist {
   void observe_sys(int s, const Polyhedron& q, int which) {
     OS o; dimension_type n = q.space_dimension();
     switch (which) {
-      case 0: o << "obs " << s << " cons"; put_cs(o, q.constraints(), n); break;
-      case 1: o << "obs " << s << " mcons"; put_cs(o, q.minimized_constraints(), n); break;
-      case 2: o << "obs " << s << " gens"; put_gs(o, q.generators(), n); break;
-      default: o << "obs " << s << " mgens"; put_gs(o, q.minimized_generators(), n); break;
+      case 0: { Tr tr(cur, &q, "constraints"); const Constraint_System& v = q.constraints(); tr.done();
+                o << "obs " << s << " cons"; put_cs(o, v, n); break; }
+      case 1: { Tr tr(cur, &q, "minimized_constraints"); const Constraint_System& v = q.minimized_constraints(); tr.done();
+                o << "obs " << s << " mcons"; put_cs(o, v, n); break; }
+      case 2: { Tr tr(cur, &q, "generators"); const Generator_System& v = q.generators(); tr.done();
+                o << "obs " << s << " gens"; put_gs(o, v, n); break; }
+      default: { Tr tr(cur, &q, "minimized_generators"); const Generator_System& v = q.minimized_generators(); tr.done();
+                o << "obs " << s << " mgens"; put_gs(o, v, n); break; }
     }
     J.line(o.str());
   }
@@ -85,34 +168,42 @@ struct Hist {
     OS o; dimension_type n = q.space_dimension();
     o << "q " << s << " ";
     switch (r.below(18)) {
-      case 0: o << "is_empty " << q.is_empty(); break;
-      case 1: o << "is_universe " << q.is_universe(); break;
-      case 2: o << "is_bounded " << q.is_bounded(); break;
-      case 3: o << "is_closed " << q.is_topologically_closed(); break;
-      case 4: { int t = pick_compatible(s); o << "contains " << t << " " << q.contains(*slot[t].p); break; }
-      case 5: { int t = pick_compatible(s); o << "strictly_contains " << t << " " << q.strictly_contains(*slot[t].p); break; }
-      case 6: { int t = pick_compatible(s); o << "disjoint " << t << " " << q.is_disjoint_from(*slot[t].p); break; }
-      case 7: { int t = pick_compatible(s); o << "equals " << t << " " << (q == *slot[t].p); break; }
-      case 8: { if (n == 0) { o << "is_empty " << q.is_empty(); break; }
-                dimension_type v = r.below(n); o << "constrains " << v << " " << q.constrains(Variable(v)); break; }
-      case 9: o << "affdim " << q.affine_dimension(); break;
+      case 0: { Tr tr(cur, &q, "is_empty"); bool b = q.is_empty(); tr.done(); o << "is_empty " << b; break; }
+      case 1: { Tr tr(cur, &q, "is_universe"); bool b = q.is_universe(); tr.done(); o << "is_universe " << b; break; }
+      case 2: { Tr tr(cur, &q, "is_bounded"); bool b = q.is_bounded(); tr.done(); o << "is_bounded " << b; break; }
+      case 3: { Tr tr(cur, &q, "is_topologically_closed"); bool b = q.is_topologically_closed(); tr.done(); o << "is_closed " << b; break; }
+      case 4: { int t = pick_compatible(s); Tr tr(cur, &q, "contains", t, slot[t].p.get()); bool b = q.contains(*slot[t].p); tr.done();
+                o << "contains " << t << " " << b; break; }
+      case 5: { int t = pick_compatible(s); Tr tr(cur, &q, "strictly_contains", t, slot[t].p.get()); bool b = q.strictly_contains(*slot[t].p); tr.done();
+                o << "strictly_contains " << t << " " << b; break; }
+      case 6: { int t = pick_compatible(s); Tr tr(cur, &q, "is_disjoint_from", t, slot[t].p.get()); bool b = q.is_disjoint_from(*slot[t].p); tr.done();
+                o << "disjoint " << t << " " << b; break; }
+      case 7: { int t = pick_compatible(s); Tr tr(cur, &q, "equals", t, slot[t].p.get()); bool b = (q == *slot[t].p); tr.done();
+                o << "equals " << t << " " << b; break; }
+      case 8: { if (n == 0) { Tr tr(cur, &q, "is_empty"); bool b = q.is_empty(); tr.done(); o << "is_empty " << b; break; }
+                dimension_type v = r.below(n); Tr tr(cur, &q, "constrains"); bool b = q.constrains(Variable(v)); tr.done();
+                o << "constrains " << v << " " << b; break; }
+      case 9: { Tr tr(cur, &q, "affine_dimension"); dimension_type a = q.affine_dimension(); tr.done(); o << "affdim " << a; break; }
       case 10: case 11: {
         Constraint c = rnd_con(r, n, true, false);
-        Poly_Con_Relation rel = q.relation_with(c);
+        Tr tr(cur, &q, "relation_with_con" + fact("incons", c.is_inconsistent()));
+        Poly_Con_Relation rel = q.relation_with(c); tr.done();
         o << "relcon"; put_con(o, c, n);
         o << " " << rel.implies(Poly_Con_Relation::is_disjoint()) << " " << rel.implies(Poly_Con_Relation::strictly_intersects())
           << " " << rel.implies(Poly_Con_Relation::is_included()) << " " << rel.implies(Poly_Con_Relation::saturates());
         break; }
       case 12: {
         Generator g = rnd_gen(r, n, nnc, false);
-        Poly_Gen_Relation rel = q.relation_with(g);
+        Tr tr(cur, &q, "relation_with_gen");
+        Poly_Gen_Relation rel = q.relation_with(g); tr.done();
         o << "relgen"; put_gen(o, g, n); o << " " << rel.implies(Poly_Gen_Relation::subsumes());
         break; }
       case 16: case 17: {
         Linear_Expression e = rnd_expr(r, n, 3, false);
         Coefficient m = r.chance(1, 6) ? 0 : r.range(1, 4);
         Congruence cg = (e %= 0) / m;
-        Poly_Con_Relation rel = q.relation_with(cg);
+        Tr tr(cur, &q, "relation_with_cg" + fact("eq", cg.is_equality()));
+        Poly_Con_Relation rel = q.relation_with(cg); tr.done();
         o << "relcg " << cg.modulus(); put_expr(o, e, n);
         o << " " << rel.implies(Poly_Con_Relation::is_disjoint()) << " " << rel.implies(Poly_Con_Relation::strictly_intersects())
           << " " << rel.implies(Poly_Con_Relation::is_included()) << " " << rel.implies(Poly_Con_Relation::saturates());
@@ -120,12 +211,14 @@ struct Hist {
       case 13: { Linear_Expression e = rnd_expr(r, n, 3, false);
         bool up = r.chance(1, 2);
         o << (up ? "bounds_above" : "bounds_below"); put_expr(o, e, n);
-        o << " " << (up ? q.bounds_from_above(e) : q.bounds_from_below(e)); break; }
+        Tr tr(cur, &q, "bounds"); bool b = (up ? q.bounds_from_above(e) : q.bounds_from_below(e)); tr.done();
+        o << " " << b; break; }
       default: {
         Linear_Expression e = rnd_expr(r, n, 3, false);
         bool mx = r.chance(1, 2);
         Coefficient num, den; bool incl; Generator g = point();
-        bool ok = mx ? q.maximize(e, num, den, incl, g) : q.minimize(e, num, den, incl, g);
+        Tr tr(cur, &q, "max_min");
+        bool ok = mx ? q.maximize(e, num, den, incl, g) : q.minimize(e, num, den, incl, g); tr.done();
         o << (mx ? "max" : "min"); put_expr(o, e, n);
         if (!ok) o << " none";
         else { o << " " << num << " " << den << " " << incl; put_gen(o, g, n); }
@@ -138,7 +231,8 @@ struct Hist {
     bool on_copy = r.chance(2, 5);
     std::unique_ptr<Polyhedron> cp;
     const Polyhedron* q = slot[s].p.get();
-    if (on_copy) { cp.reset(clone(*slot[s].p)); q = cp.get(); }
+    if (on_copy) { cp.reset(clone_tr(9, s, *slot[s].p)); q = cp.get(); }
+    cur = on_copy ? 9 : s;
     unsigned k = 1 + r.below(3);
     for (unsigned i = 0; i < k; ++i) {
       if (r.chance(1, 2)) observe_sys(s, *q, r.below(4)); else query(s, *q);
@@ -156,14 +250,17 @@ struct Hist {
     Topology t = nnc ? NOT_NECESSARILY_CLOSED : NECESSARILY_CLOSED;
     OS o; o << "new " << s << " " << (nnc ? "N" : "C") << " " << n << " ";
     unsigned k = r.below(10);
-    if (k == 0) { slot[s].p.reset(make(t, n, UNIVERSE)); o << "univ"; }
-    else if (k == 1) { slot[s].p.reset(make(t, n, EMPTY)); o << "empty"; }
+    if (k == 0) { Tr tr(s, 0, "ctor_univ" + fact("dim", n)); slot[s].p.reset(make(t, n, UNIVERSE)); tr.done(slot[s].p.get()); o << "univ"; }
+    else if (k == 1) { Tr tr(s, 0, "ctor_empty" + fact("dim", n)); slot[s].p.reset(make(t, n, EMPTY)); tr.done(slot[s].p.get()); o << "empty"; }
     else if (k < 7) {
       Constraint_System cs = rnd_cs(r, n, nnc, 5, big);
       o << "cons"; put_cs(o, cs, n);
       J.line(o.str());   // journal first: the constructor may crash
-      slot[s].p.reset(nnc ? (Polyhedron*)new NNC_Polyhedron(cs) : (Polyhedron*)new C_Polyhedron(cs));
-      if (slot[s].p->space_dimension() < n) slot[s].p->add_space_dimensions_and_embed(n - slot[s].p->space_dimension());
+      { bool inc = false; for (Constraint_System::const_iterator i = cs.begin(); i != cs.end(); ++i) if (i->is_inconsistent()) inc = true;
+        Tr tr(s, 0, "ctor_cons" + fact("dim", cs.space_dimension()) + fact("incons", inc));
+        slot[s].p.reset(nnc ? (Polyhedron*)new NNC_Polyhedron(cs) : (Polyhedron*)new C_Polyhedron(cs)); tr.done(slot[s].p.get()); }
+      if (slot[s].p->space_dimension() < n) { dimension_type m = n - slot[s].p->space_dimension();
+        Tr tr(s, slot[s].p.get(), "add_space_dimensions_and_embed" + fact("m", m)); slot[s].p->add_space_dimensions_and_embed(m); tr.done(); }
       return;
     } else {
       Generator_System gs = rnd_gs(r, n, nnc, n <= 2 ? 5 : 4);
@@ -171,8 +268,10 @@ struct Hist {
       }
       o << "gens"; put_gs(o, gs, n);
       J.line(o.str());
-      slot[s].p.reset(nnc ? (Polyhedron*)new NNC_Polyhedron(gs) : (Polyhedron*)new C_Polyhedron(gs));
-      if (slot[s].p->space_dimension() < n) slot[s].p->add_space_dimensions_and_embed(n - slot[s].p->space_dimension());
+      { Tr tr(s, 0, "ctor_gens" + fact("dim", gs.space_dimension()) + fact("norows", sys_rows(gs) == 0));
+        slot[s].p.reset(nnc ? (Polyhedron*)new NNC_Polyhedron(gs) : (Polyhedron*)new C_Polyhedron(gs)); tr.done(slot[s].p.get()); }
+      if (slot[s].p->space_dimension() < n) { dimension_type m = n - slot[s].p->space_dimension();
+        Tr tr(s, slot[s].p.get(), "add_space_dimensions_and_embed" + fact("m", m)); slot[s].p->add_space_dimensions_and_embed(m); tr.done(); }
       return;
     }
     J.line(o.str());
@@ -197,12 +296,13 @@ struct Hist {
       Constraint_System all; if (n > 0) all.insert(0 * Variable(n - 1) >= -1);
       for (size_t i = 0; i < rows.size(); ++i) all.insert(rows[i]);
       o << "cons"; put_cs(o, all, n); J.line(o.str());
-      slot[d].p.reset(make(t, n, UNIVERSE));
+      { Tr tr(d, 0, "ctor_univ" + fact("dim", n)); slot[d].p.reset(make(t, n, UNIVERSE)); tr.done(slot[d].p.get()); }
       bool incremental = r.chance(1, 2);
       for (size_t i = 0; i < rows.size(); ++i) {
-        slot[d].p->add_constraint(rows[i]);
+        { Tr tr(d, slot[d].p.get(), "add_constraint" + con_facts(rows[i])); slot[d].p->add_constraint(rows[i]); tr.done(); }
         if (incremental && r.chance(1, 2)) {
-          if (r.chance(1, 2)) (void) slot[d].p->minimized_generators(); else (void) slot[d].p->generators();
+          if (r.chance(1, 2)) { Tr tr(d, slot[d].p.get(), "minimized_generators"); (void) slot[d].p->minimized_generators(); tr.done(); }
+          else { Tr tr(d, slot[d].p.get(), "generators"); (void) slot[d].p->generators(); tr.done(); }
         }
       }
     } else {
@@ -215,23 +315,24 @@ struct Hist {
       for (size_t i = rows.size(); i > 2; --i) std::swap(rows[i - 1], rows[1 + r.below((unsigned)(i - 1))]);
       Generator_System all; for (size_t i = 0; i < rows.size(); ++i) all.insert(rows[i]);
       o << "gens"; put_gs(o, all, n); J.line(o.str());
-      slot[d].p.reset(make(t, n, EMPTY));
+      { Tr tr(d, 0, "ctor_empty" + fact("dim", n)); slot[d].p.reset(make(t, n, EMPTY)); tr.done(slot[d].p.get()); }
       bool incremental = r.chance(1, 2);
       for (size_t i = 0; i < rows.size(); ++i) {
-        slot[d].p->add_generator(rows[i]);
+        { Tr tr(d, slot[d].p.get(), "add_generator" + fact("point", rows[i].is_point())); slot[d].p->add_generator(rows[i]); tr.done(); }
         if (incremental && r.chance(1, 2)) {
-          if (r.chance(1, 2)) (void) slot[d].p->minimized_constraints(); else (void) slot[d].p->constraints();
+          if (r.chance(1, 2)) { Tr tr(d, slot[d].p.get(), "minimized_constraints"); (void) slot[d].p->minimized_constraints(); tr.done(); }
+          else { Tr tr(d, slot[d].p.get(), "constraints"); (void) slot[d].p->constraints(); tr.done(); }
         }
       }
     }
-    if (r.chance(1, 2)) (void) slot[s].p->minimized_constraints();
-    if (r.chance(1, 2)) (void) slot[d].p->minimized_generators();
+    if (r.chance(1, 2)) { Tr tr(s, slot[s].p.get(), "minimized_constraints"); (void) slot[s].p->minimized_constraints(); tr.done(); }
+    if (r.chance(1, 2)) { Tr tr(d, slot[d].p.get(), "minimized_generators"); (void) slot[d].p->minimized_generators(); tr.done(); }
     const Polyhedron& X = *slot[s].p; const Polyhedron& Y = *slot[d].p;
-    { OS q; q << "q " << s << " equals " << d << " " << (X == Y); J.line(q.str()); }
-    { OS q; q << "q " << d << " equals " << s << " " << (Y == X); J.line(q.str()); }
-    { OS q; q << "q " << s << " contains " << d << " " << X.contains(Y); J.line(q.str()); }
-    { OS q; q << "q " << d << " contains " << s << " " << Y.contains(X); J.line(q.str()); }
-    { OS q; q << "q " << s << " strictly_contains " << d << " " << X.strictly_contains(Y); J.line(q.str()); }
+    { Tr tr(s, &X, "equals", d, &Y); bool b = (X == Y); tr.done(); OS q; q << "q " << s << " equals " << d << " " << b; J.line(q.str()); }
+    { Tr tr(d, &Y, "equals", s, &X); bool b = (Y == X); tr.done(); OS q; q << "q " << d << " equals " << s << " " << b; J.line(q.str()); }
+    { Tr tr(s, &X, "contains", d, &Y); bool b = X.contains(Y); tr.done(); OS q; q << "q " << s << " contains " << d << " " << b; J.line(q.str()); }
+    { Tr tr(d, &Y, "contains", s, &X); bool b = Y.contains(X); tr.done(); OS q; q << "q " << d << " contains " << s << " " << b; J.line(q.str()); }
+    { Tr tr(s, &X, "strictly_contains", d, &Y); bool b = X.strictly_contains(Y); tr.done(); OS q; q << "q " << s << " strictly_contains " << d << " " << b; J.line(q.str()); }
     status_line(s); status_line(d);
   }
 
@@ -280,6 +381,69 @@ struct Hist {
     return d;
   }
 
+  // ---- C02, second batch: helpers (models: lean/PPLV/Lin/Ops2.lean) -------------------------
+  // Generator hints of the pieces P ∩ ¬c (c a row of Q) of the set difference P ∖ Q, computed on
+  // copies; the driver verifies every claim (RefPoly.diffJudge).  C polyhedra: the closed piece
+  // P ∩ {-e >= 0} is listed iff the strict piece P ∩ {-e > 0} is non-empty.
+  bool diff_pieces(int s, int t) {
+    const Polyhedron& P = *slot[s].p; dimension_type n = P.space_dimension();
+    std::unique_ptr<Polyhedron> qc(clone(*slot[t].p));
+    std::vector<std::string> lines;
+    const Constraint_System& qcs = r.chance(1, 2) ? qc->minimized_constraints() : qc->constraints();
+    unsigned rows = 0;
+    for (Constraint_System::const_iterator i = qcs.begin(); i != qcs.end(); ++i) {
+      if (++rows > 7) return false;
+      const Constraint& c = *i;
+      Linear_Expression e(c.expression());
+      std::vector<std::pair<Constraint, Constraint> > negs;     // (listed half-space, its strict version)
+      if (c.is_equality()) {
+        negs.push_back(std::make_pair(nnc ? (-e > 0) : (-e >= 0), -e > 0));
+        negs.push_back(std::make_pair(nnc ? (e > 0) : (e >= 0), e > 0));
+      }
+      else if (c.is_strict_inequality()) negs.push_back(std::make_pair(-e >= 0, -e >= 0));
+      else negs.push_back(std::make_pair(nnc ? (-e > 0) : (-e >= 0), -e > 0));
+      for (size_t j = 0; j < negs.size(); ++j) {
+        std::unique_ptr<NNC_Polyhedron> np(nnc ? new NNC_Polyhedron(static_cast<const NNC_Polyhedron&>(P))
+                                               : new NNC_Polyhedron(static_cast<const C_Polyhedron&>(P)));
+        np->add_constraint(negs[j].second);
+        if (np->is_empty()) continue;
+        OS l; l << "piece " << s; put_con(l, negs[j].first, n); l << " gens";
+        if (nnc) { const Generator_System& g = np->minimized_generators();
+          if (std::distance(g.begin(), g.end()) > 9) return false; put_gs(l, g, n); }
+        else { C_Polyhedron cp(static_cast<const C_Polyhedron&>(P)); cp.add_constraint(negs[j].first);
+          const Generator_System& g = cp.minimized_generators();
+          if (std::distance(g.begin(), g.end()) > 9) return false; put_gs(l, g, n); }
+        lines.push_back(l.str());
+      }
+    }
+    if (lines.size() > 6) return false;
+    for (size_t i = 0; i < lines.size(); ++i) J.line(lines[i]);
+    return true;
+  }
+  // a small congruence system; `proper` receives the number of non-trivial proper congruences
+  struct Cg { Linear_Expression e; Coefficient m; };
+  std::vector<Cg> rnd_cgs(dimension_type n, unsigned max_proper, unsigned& proper) {
+    std::vector<Cg> v; proper = 0;
+    unsigned cnt = 1 + r.below(2);
+    for (unsigned i = 0; i < cnt; ++i) {
+      Cg g; unsigned k = r.below(8);
+      if (k < 4 || n == 0) {
+        if (k < 3 && n > 0) { g.e = rnd_expr(r, n, 3, false); g.m = 0; }                       // equality
+        else { if (n > 0) g.e += 0 * Variable(n - 1); g.m = r.range(1, 4); g.e += Coefficient(r.range(-6, 6)); }   // no variables: true or false
+      }
+      else if (k < 6) { if (n > 0) g.e += 0 * Variable(n - 1); g.m = r.range(2, 4); g.e += g.m * Coefficient(r.range(-2, 2)); }  // tautology
+      else { g.e = rnd_expr(r, n, 3, false); g.m = r.range(1, 4);
+             if (all_zero(g.e, n)) { /* trivial after all */ }
+             else if (proper >= max_proper) g.m = 0; else ++proper; }
+      v.push_back(g);
+    }
+    return v;
+  }
+  void put_cgs(OS& o, const std::vector<Cg>& v, dimension_type n) {
+    o << " " << v.size();
+    for (size_t i = 0; i < v.size(); ++i) { o << " " << v[i].m; put_expr(o, v[i].e, n); }
+  }
+
   // one mutator; returns false if nothing was done
   void mutate(bool c02) {
     int s = pick_live();
@@ -287,85 +451,98 @@ struct Hist {
     Polyhedron& P = *slot[s].p;
     dimension_type n = P.space_dimension();
     OS o;
-    unsigned k = r.below(c02 ? 34 : 22);
+    unsigned k = r.below(c02 ? 42 : 22);
     if (c02 && bias >= 0 && r.chance(2, 5)) k = (unsigned)bias;   // focused batch (e.g. the *_if_exact predicates)
     if (r.chance(1, 7)) { twin(s); return; }
     try {
       switch (k) {
       case 0: case 1: { Constraint_System cs = rnd_cs(r, n, nnc, 2, big);
         o << "op " << s << " add_cons"; put_cs(o, cs, n); J.line(o.str());
-        if (r.chance(1, 2)) P.add_constraints(cs); else for (Constraint_System::const_iterator i = cs.begin(); i != cs.end(); ++i) P.add_constraint(*i);
+        if (r.chance(1, 2)) { Tr tr(s, &P, "add_constraints" + cs_facts(cs)); P.add_constraints(cs); tr.done(); }
+        else for (Constraint_System::const_iterator i = cs.begin(); i != cs.end(); ++i) { Tr tr(s, &P, "add_constraint" + con_facts(*i)); P.add_constraint(*i); tr.done(); }
         break; }
       case 2: { // strict constraints only on NNC polyhedra: refining a C polyhedron with a strict
                 // constraint is specified only up to "between P∩c and P∩closure(c)"
         Constraint_System cs = rnd_cs(r, n, nnc, 2, big);
         o << "op " << s << " refine_cons"; put_cs(o, cs, n); J.line(o.str());
-        if (r.chance(1, 2)) P.refine_with_constraints(cs); else for (Constraint_System::const_iterator i = cs.begin(); i != cs.end(); ++i) P.refine_with_constraint(*i);
+        if (r.chance(1, 2)) { Tr tr(s, &P, "refine_with_constraints" + cs_facts(cs)); P.refine_with_constraints(cs); tr.done(); }
+        else for (Constraint_System::const_iterator i = cs.begin(); i != cs.end(); ++i) { Tr tr(s, &P, "refine_with_constraint" + con_facts(*i)); P.refine_with_constraint(*i); tr.done(); }
         break; }
-      case 3: { bool emp = P.is_empty();   // (is_empty drives the lazy state too)
+      case 3: { Tr tr0(s, &P, "is_empty"); bool emp = P.is_empty(); tr0.done();   // (is_empty drives the lazy state too)
         Generator_System gs; gs.insert(rnd_gen(r, n, nnc, emp)); if (r.chance(1, 2)) gs.insert(rnd_gen(r, n, nnc, false));
         if (!emp) hint(s);
         o << "op " << s << " add_gens"; put_gs(o, gs, n); J.line(o.str());
-        if (r.chance(1, 2)) P.add_generators(gs); else for (Generator_System::const_iterator i = gs.begin(); i != gs.end(); ++i) P.add_generator(*i);
+        if (r.chance(1, 2)) { Tr tr(s, &P, "add_generators" + fact("norows", sys_rows(gs) == 0) + fact("points", gs_points(gs))); P.add_generators(gs); tr.done(); }
+        else for (Generator_System::const_iterator i = gs.begin(); i != gs.end(); ++i) { Tr tr(s, &P, "add_generator" + fact("point", i->is_point())); P.add_generator(*i); tr.done(); }
         break; }
       case 4: { int t = pick_compatible(s);
         o << "op " << s << " meet " << t; J.line(o.str());
-        P.intersection_assign(*slot[t].p); break; }
+        { Tr tr(s, &P, "intersection_assign", t, slot[t].p.get()); P.intersection_assign(*slot[t].p); tr.done(); } break; }
       case 5: case 6: { int t = pick_compatible(s);
         hint(s); hint(t);
         o << "op " << s << " hull " << t; J.line(o.str());
-        if (r.chance(1, 2)) P.poly_hull_assign(*slot[t].p); else P.upper_bound_assign(*slot[t].p);
+        { Tr tr(s, &P, "poly_hull_assign", t, slot[t].p.get());
+          if (r.chance(1, 2)) P.poly_hull_assign(*slot[t].p); else P.upper_bound_assign(*slot[t].p);
+          tr.done(); }
         break; }
       case 7: { if (n == 0) return; dimension_type v = r.below(n);
         Linear_Expression e = rnd_expr(r, n, 3, big); Coefficient d = r.chance(1, 4) ? r.range(-3, -1) : r.range(1, 3);
         o << "op " << s << " aff_img " << v << " " << d; put_expr(o, e, n); J.line(o.str());
-        P.affine_image(Variable(v), e, d); break; }
+        { Tr tr(s, &P, "affine_image" + fact("inv", e.coefficient(Variable(v)) != 0)); P.affine_image(Variable(v), e, d); tr.done(); } break; }
       case 8: { if (n == 0) return; dimension_type v = r.below(n);
         Linear_Expression e = rnd_expr(r, n, 3, big); Coefficient d = r.chance(1, 4) ? r.range(-3, -1) : r.range(1, 3);
         o << "op " << s << " aff_pre " << v << " " << d; put_expr(o, e, n); J.line(o.str());
-        P.affine_preimage(Variable(v), e, d); break; }
+        { Tr tr(s, &P, "affine_preimage" + fact("inv", e.coefficient(Variable(v)) != 0)); P.affine_preimage(Variable(v), e, d); tr.done(); } break; }
       case 9: { if (n == 0) return; unsigned cnt = 1 + r.below(2); Variables_Set vs;
         for (unsigned i = 0; i < cnt; ++i) vs.insert(Variable(r.below(n)));
         o << "op " << s << " unconstrain " << vs.size();
         for (Variables_Set::const_iterator i = vs.begin(); i != vs.end(); ++i) o << " " << *i;
         J.line(o.str());
-        if (vs.size() == 1 && r.chance(1, 2)) P.unconstrain(Variable(*vs.begin())); else P.unconstrain(vs);
+        { Tr tr(s, &P, "unconstrain" + fact("k", (long)vs.size()));
+          if (vs.size() == 1 && r.chance(1, 2)) P.unconstrain(Variable(*vs.begin())); else P.unconstrain(vs);
+          tr.done(); }
         break; }
-      case 10: { o << "op " << s << " closure"; J.line(o.str()); P.topological_closure_assign(); break; }
+      case 10: { o << "op " << s << " closure"; J.line(o.str());
+        { Tr tr(s, &P, "topological_closure_assign"); P.topological_closure_assign(); tr.done(); } break; }
       case 11: { // copy into another slot
         int d = r.below(4); if (d == s) return;
         o << "copy " << d << " " << s; J.line(o.str());
-        slot[d].p.reset(clone(P)); break; }
+        slot[d].p.reset(clone_tr(d, s, P)); break; }
       case 12: { int d = pick_live(); if (d == s) return;
         o << "swap " << s << " " << d; J.line(o.str());
-        P.m_swap(*slot[d].p); break; }
+        { Tr tr(s, &P, "m_swap", d, slot[d].p.get()); P.m_swap(*slot[d].p); tr.done(); } break; }
       case 13: { int d = pick_compatible(s); if (d == s) return;   // assignment
         o << "copy " << d << " " << s; J.line(o.str());
-        if (nnc) static_cast<NNC_Polyhedron&>(*slot[d].p) = static_cast<NNC_Polyhedron&>(P);
-        else static_cast<C_Polyhedron&>(*slot[d].p) = static_cast<C_Polyhedron&>(P);
+        { Tr tr(d, slot[d].p.get(), "assign", s, &P);
+          if (nnc) static_cast<NNC_Polyhedron&>(*slot[d].p) = static_cast<NNC_Polyhedron&>(P);
+          else static_cast<C_Polyhedron&>(*slot[d].p) = static_cast<C_Polyhedron&>(P);
+          tr.done(); }
         break; }
       case 14: { if (n >= maxdim) return; dimension_type m = 1;
         bool emb = r.chance(1, 2);
         o << "op " << s << (emb ? " add_dims_embed " : " add_dims_project ") << m; J.line(o.str());
-        if (emb) P.add_space_dimensions_and_embed(m); else P.add_space_dimensions_and_project(m); break; }
+        { Tr tr(s, &P, std::string(emb ? "add_space_dimensions_and_embed" : "add_space_dimensions_and_project") + fact("m", m));
+          if (emb) P.add_space_dimensions_and_embed(m); else P.add_space_dimensions_and_project(m); tr.done(); } break; }
       case 15: { if (n == 0) return; Variables_Set vs; vs.insert(Variable(r.below(n)));
         if (r.chance(1, 3)) vs.insert(Variable(r.below(n)));
         o << "op " << s << " remove_dims " << vs.size();
         for (Variables_Set::const_iterator i = vs.begin(); i != vs.end(); ++i) o << " " << *i;
-        J.line(o.str()); P.remove_space_dimensions(vs); break; }
+        J.line(o.str());
+        { Tr tr(s, &P, "remove_space_dimensions" + fact("k", (long)vs.size())); P.remove_space_dimensions(vs); tr.done(); } break; }
       case 16: { if (n == 0) return; dimension_type m = r.below(n + 1);
-        o << "op " << s << " remove_higher " << m; J.line(o.str()); P.remove_higher_space_dimensions(m); break; }
+        o << "op " << s << " remove_higher " << m; J.line(o.str());
+        { Tr tr(s, &P, "remove_higher_space_dimensions" + fact("nd", m)); P.remove_higher_space_dimensions(m); tr.done(); } break; }
       case 17: { int t = pick_live(); if (n + dim(t) > maxdim) return;
         o << "op " << s << " concat " << t; J.line(o.str());
-        std::unique_ptr<Polyhedron> cp(clone(*slot[t].p));
-        P.concatenate_assign(*cp); break; }
+        std::unique_ptr<Polyhedron> cp(clone_tr(9, t, *slot[t].p));
+        { Tr tr(s, &P, "concatenate_assign", 9, cp.get()); P.concatenate_assign(*cp); tr.done(); } break; }
       case 18: { int t = pick_compatible(s);
         hint(s); hint(t);
         o << "op " << s << " time_elapse " << t; J.line(o.str());
-        P.time_elapse_assign(*slot[t].p); break; }
+        { Tr tr(s, &P, "time_elapse_assign", t, slot[t].p.get()); P.time_elapse_assign(*slot[t].p); tr.done(); } break; }
       case 19: { if (n == 0 || n >= maxdim) return; dimension_type v = r.below(n);
         o << "op " << s << " expand " << v << " 1"; J.line(o.str());
-        P.expand_space_dimension(Variable(v), 1); break; }
+        { Tr tr(s, &P, "expand_space_dimension" + fact("m", 1)); P.expand_space_dimension(Variable(v), 1); tr.done(); } break; }
       case 20: { // map_space_dimensions with a random partial injective function
         if (n == 0) return;
         Partial_Function pf; std::vector<int> img(n, -1); std::vector<dimension_type> tgt;
@@ -383,7 +560,8 @@ struct Hist {
         for (dimension_type i = 0; i < n; ++i) if (kept[i]) { pf.insert(i, perm[c]); pr.push_back(std::make_pair(i, perm[c])); ++c; }
         o << "op " << s << " map_dims " << keep << " " << pr.size();
         for (size_t i = 0; i < pr.size(); ++i) o << " " << pr[i].first << " " << pr[i].second;
-        J.line(o.str()); P.map_space_dimensions(pf); break; }
+        J.line(o.str());
+        { Tr tr(s, &P, "map_space_dimensions" + fact("nd", keep)); P.map_space_dimensions(pf); tr.done(); } break; }
       case 21: { int d = r.below(4); if (slot[d].live() && r.chance(1, 2)) return;
         create(d, n); break; }
       // ---- C02 extras -------------------------------------------------------------------
@@ -392,31 +570,45 @@ struct Hist {
         Linear_Expression e = rnd_expr(r, n, 3, big); Coefficient d = r.chance(1, 4) ? r.range(-3, -1) : r.range(1, 3);
         bool img = (k == 22);
         o << "op " << s << (img ? " gen_img " : " gen_pre ") << v << " " << relsym_str(rs) << " " << d; put_expr(o, e, n); J.line(o.str());
-        if (img) P.generalized_affine_image(Variable(v), rs, e, d); else P.generalized_affine_preimage(Variable(v), rs, e, d);
+        { Tr tr(s, &P, std::string(img ? "generalized_affine_image" : "generalized_affine_preimage") + fact("inv", e.coefficient(Variable(v)) != 0)
+                          + fact("eq", rs == EQUAL) + fact("strict", rs == LESS_THAN || rs == GREATER_THAN));
+          if (img) P.generalized_affine_image(Variable(v), rs, e, d); else P.generalized_affine_preimage(Variable(v), rs, e, d);
+          tr.done(); }
         break; }
       case 24: case 25: {
         Relation_Symbol rs = (Relation_Symbol[]){LESS_OR_EQUAL, EQUAL, GREATER_OR_EQUAL, LESS_THAN, GREATER_THAN}[r.below(nnc ? 5 : 3)];
         Linear_Expression lhs = rnd_expr(r, n, 2, false), rhs = rnd_expr(r, n, 3, big);
         bool img = (k == 24);
         o << "op " << s << (img ? " gen_img2 " : " gen_pre2 ") << relsym_str(rs); put_expr(o, lhs, n); put_expr(o, rhs, n); J.line(o.str());
-        if (img) P.generalized_affine_image(lhs, rs, rhs); else P.generalized_affine_preimage(lhs, rs, rhs);
+        { Tr tr(s, &P, std::string(img ? "generalized_affine_image2" : "generalized_affine_preimage2") + fact("lconst", expr_const(lhs))
+                          + fact("common", expr_common(lhs, rhs)) + fact("eq", rs == EQUAL) + fact("strict", rs == LESS_THAN || rs == GREATER_THAN));
+          if (img) P.generalized_affine_image(lhs, rs, rhs); else P.generalized_affine_preimage(lhs, rs, rhs);
+          tr.done(); }
         break; }
       case 26: case 27: { if (n == 0) return; dimension_type v = r.below(n);
         Linear_Expression lb = rnd_expr(r, n, 3, false), ub = rnd_expr(r, n, 3, false);
         Coefficient d = r.chance(1, 4) ? r.range(-3, -1) : r.range(1, 3);
         bool img = (k == 26);
         o << "op " << s << (img ? " bnd_img " : " bnd_pre ") << v << " " << d; put_expr(o, lb, n); put_expr(o, ub, n); J.line(o.str());
-        if (img) P.bounded_affine_image(Variable(v), lb, ub, d); else P.bounded_affine_preimage(Variable(v), lb, ub, d);
+        { Tr tr(s, &P, std::string(img ? "bounded_affine_image" : "bounded_affine_preimage") + fact("lbv", lb.coefficient(Variable(v)) != 0)
+                          + fact("ubv", ub.coefficient(Variable(v)) != 0));
+          if (img) P.bounded_affine_image(Variable(v), lb, ub, d); else P.bounded_affine_preimage(Variable(v), lb, ub, d);
+          tr.done(); }
         break; }
       case 28: { int t = pick_compatible(s);       // result judged by its defining relations
         o << "pre " << s << " simplify_ctx " << t; J.line(o.str());
-        bool b = P.simplify_using_context_assign(*slot[t].p);
-        OS q; q << "res " << s << " simplify_ctx " << t << " " << b; put_cs(q, P.constraints(), n); J.line(q.str());
+        Tr tr(s, &P, "simplify_using_context_assign", t, slot[t].p.get());
+        bool b = P.simplify_using_context_assign(*slot[t].p); tr.done();
+        Tr tr2(s, &P, "constraints"); const Constraint_System& rc = P.constraints(); tr2.done();
+        OS q; q << "res " << s << " simplify_ctx " << t << " " << b; put_cs(q, rc, n); J.line(q.str());
         break; }
       case 29: case 30: { int t = pick_compatible(s);
         o << "pre " << s << " diff " << t; J.line(o.str());
-        if (r.chance(1, 2)) P.poly_difference_assign(*slot[t].p); else P.difference_assign(*slot[t].p);
-        OS q; q << "res " << s << " diff " << t << " 1"; put_cs(q, P.constraints(), n); J.line(q.str());
+        { Tr tr(s, &P, "poly_difference_assign", t, slot[t].p.get());
+          if (r.chance(1, 2)) P.poly_difference_assign(*slot[t].p); else P.difference_assign(*slot[t].p);
+          tr.done(); }
+        Tr tr2(s, &P, "constraints"); const Constraint_System& rc = P.constraints(); tr2.done();
+        OS q; q << "res " << s << " diff " << t << " 1"; put_cs(q, rc, n); J.line(q.str());
         break; }
       case 31: case 32: { int t = pick_compatible(s);
         if (r.chance(3, 5)) t = neighbour(s);
@@ -428,11 +620,94 @@ struct Hist {
                  : static_cast<NNC_Polyhedron&>(P).upper_bound_assign_if_exact(static_cast<const NNC_Polyhedron&>(*slot[t].p)))
           : (alt ? static_cast<C_Polyhedron&>(P).poly_hull_assign_if_exact(static_cast<const C_Polyhedron&>(*slot[t].p))
                  : static_cast<C_Polyhedron&>(P).upper_bound_assign_if_exact(static_cast<const C_Polyhedron&>(*slot[t].p)));
-        OS q; q << "res " << s << " hull_if_exact " << t << " " << b; put_cs(q, P.constraints(), n); J.line(q.str());
+        Tr tr2(s, &P, "constraints"); const Constraint_System& rc = P.constraints(); tr2.done();
+        OS q; q << "res " << s << " hull_if_exact " << t << " " << b; put_cs(q, rc, n); J.line(q.str());
+        break; }
+      // ---- C02, second batch (cases 34..41) -----------------------------------------------------
+      case 34: case 35: { int t = pick_compatible(s);     // difference, leastness judged through piece hints
+        if (r.chance(2, 5)) t = neighbour(s);
+        o << "pre " << s << " diff " << t; J.line(o.str());
+        bool hinted = diff_pieces(s, t);
+        if (r.chance(1, 2)) P.poly_difference_assign(*slot[t].p); else P.difference_assign(*slot[t].p);
+        OS q; q << "res " << s << " diff " << t << " " << (hinted ? 2 : 1); put_cs(q, P.constraints(), n); J.line(q.str());
+        break; }
+      case 36: { int t = pick_compatible(s);
+        o << "op " << s << " pos_time_elapse " << t; J.line(o.str());
+        if (nnc) static_cast<NNC_Polyhedron&>(P).positive_time_elapse_assign(*slot[t].p);
+        else static_cast<C_Polyhedron&>(P).positive_time_elapse_assign(*slot[t].p);
+        break; }
+      case 37: { // through the other topology and back, without observing the intermediate object
+        if (nnc) {
+          o << "op " << s << " conv 0"; J.line(o.str());
+          C_Polyhedron c(static_cast<const NNC_Polyhedron&>(P));
+          if (r.chance(1, 2)) { NNC_Polyhedron back(c); static_cast<NNC_Polyhedron&>(P) = back; }
+          else { NNC_Polyhedron back(n); back = NNC_Polyhedron(c); P.m_swap(back); }
+        } else {
+          Constraint_System cs = rnd_cs(r, n, true, 2, false);
+          if (n > 0 && r.chance(1, 3)) {      // the strict complement of one of P's own rows: P ∩ cs is empty, its "relaxation" is not
+            std::unique_ptr<Polyhedron> cp(clone(P));
+            const Constraint_System& pcs = cp->constraints();
+            std::vector<Constraint> rows; for (Constraint_System::const_iterator i = pcs.begin(); i != pcs.end(); ++i) rows.push_back(*i);
+            if (!rows.empty()) { const Constraint& c = rows[r.below((unsigned)rows.size())];
+              Linear_Expression e(c.expression()); if (!c.is_equality() || r.chance(1, 2)) cs.insert(-e > 0); else cs.insert(e > 0); }
+          }
+          o << "op " << s << " conv"; put_cs(o, cs, n); J.line(o.str());
+          NNC_Polyhedron tmp(static_cast<const C_Polyhedron&>(P));
+          if (r.chance(1, 2)) tmp.add_constraints(cs); else for (Constraint_System::const_iterator i = cs.begin(); i != cs.end(); ++i) tmp.add_constraint(*i);
+          if (r.chance(1, 2)) { C_Polyhedron c(tmp); static_cast<C_Polyhedron&>(P) = c; }
+          else static_cast<C_Polyhedron&>(P) = tmp;
+        }
+        break; }
+      case 38: { unsigned proper; std::vector<Cg> v = rnd_cgs(n, 1, proper);
+        // (a contradiction placed before a non-trivial proper congruence makes add_congruences empty the
+        //  object and return instead of throwing, whatever the documentation says: keep the two apart)
+        if (proper > 0) for (size_t i = 0; i < v.size(); ++i) if (v[i].m != 0 && all_zero(v[i].e, n)) {
+          Linear_Expression z; if (n > 0) z += 0 * Variable(n - 1); v[i].e = z; }
+        Congruence_System cgs; if (n > 0) cgs.insert((0 * Variable(n - 1) %= 0) / 0);
+        for (size_t i = 0; i < v.size(); ++i) cgs.insert((v[i].e %= 0) / v[i].m);
+        bool sys = r.chance(1, 2);
+        if (proper > 0) {      // documented to throw std::invalid_argument and leave the object alone
+          bool threw = false;
+          try { if (sys) P.add_congruences(cgs); else for (size_t i = 0; i < v.size(); ++i) if (v[i].m != 0 && !all_zero(v[i].e, n)) P.add_congruence((v[i].e %= 0) / v[i].m); }
+          catch (const std::invalid_argument&) { threw = true; }
+          o << "q " << s << " threw " << (sys ? "add_congruences" : "add_congruence") << " " << threw; J.line(o.str());
+        } else {
+          o << "op " << s << " add_cgs"; put_cgs(o, v, n); J.line(o.str());
+          if (sys) P.add_congruences(cgs); else for (size_t i = 0; i < v.size(); ++i) P.add_congruence((v[i].e %= 0) / v[i].m);
+        }
+        break; }
+      case 39: { unsigned proper; std::vector<Cg> v = rnd_cgs(n, 1, proper);
+        Congruence_System cgs; if (n > 0) cgs.insert((0 * Variable(n - 1) %= 0) / 0);
+        for (size_t i = 0; i < v.size(); ++i) cgs.insert((v[i].e %= 0) / v[i].m);
+        o << "pre " << s << " refine_cgs " << s; J.line(o.str());
+        if (r.chance(1, 2)) P.refine_with_congruences(cgs); else for (size_t i = 0; i < v.size(); ++i) P.refine_with_congruence((v[i].e %= 0) / v[i].m);
+        OS q; q << "res " << s << " refine_cgs " << s << " 1"; put_cs(q, P.constraints(), n); put_cgs(q, v, n); J.line(q.str());
+        break; }
+      case 40: { if (n < 2) return;
+        dimension_type dest = r.below(n); Variables_Set vs;
+        unsigned cnt = 1 + r.below(2);
+        if (!r.chance(1, 8))     // (one time in eight: nothing to fold)
+          for (unsigned i = 0; i < cnt; ++i) vs.insert(Variable((dest + 1 + r.below(n - 1)) % n));
+        if (!P.is_empty()) hint(s);
+        o << "op " << s << " fold " << dest << " " << vs.size();
+        for (Variables_Set::const_iterator i = vs.begin(); i != vs.end(); ++i) o << " " << *i;
+        J.line(o.str());
+        P.fold_space_dimensions(vs, Variable(dest)); break; }
+      case 41: { int d = r.below(4); if (slot[d].live() && r.chance(1, 2)) return;      // constructor from a box
+        Rational_Box box(n);
+        Constraint_System cs; if (n > 0) cs.insert(0 * Variable(n - 1) >= -1);
+        unsigned m = n == 0 ? 0 : r.below(2 * (unsigned)n + 1);
+        for (unsigned i = 0; i < m; ++i) {
+          Linear_Expression e = Coefficient(r.chance(1, 2) ? r.range(1, 3) : r.range(-3, -1)) * Variable(r.below(n)) + Coefficient(r.range(-4, 4));
+          Constraint c = (nnc && r.chance(1, 3)) ? (e > 0) : r.chance(1, 6) ? (e == 0) : (e >= 0);
+          cs.insert(c); box.add_constraint(c);
+        }
+        o << "new " << d << " " << (nnc ? "N" : "C") << " " << n << " cons"; put_cs(o, cs, n); J.line(o.str());
+        slot[d].p.reset(nnc ? (Polyhedron*)new NNC_Polyhedron(box) : (Polyhedron*)new C_Polyhedron(box));
         break; }
       default: { int t = pick_compatible(s);
         o << "op " << s << " meet " << t; J.line(o.str());
-        P.intersection_assign(*slot[t].p); break; }
+        { Tr tr(s, &P, "intersection_assign", t, slot[t].p.get()); P.intersection_assign(*slot[t].p); tr.done(); } break; }
       }
     } catch (...) {
       J.line("exc " + pplv::exc_class());
@@ -448,6 +723,7 @@ int main(int argc, char** argv) {
   long maxdim = pplv::arg_long(argc, argv, "--maxdim", 3);
   long batch = pplv::arg_long(argc, argv, "--batch", 25);
   bool c02 = !strcmp(pplv::arg_str(argc, argv, "--ops", "all"), "all");
+  g_trace = pplv::arg_long(argc, argv, "--status-trace", 0) != 0;
   long nb = (last - first + batch - 1) / batch;
   return pplv::run_batches(0, nb, [&](long b) {
     for (long h = first + b * batch; h < std::min(last, first + (b + 1) * batch); ++h) {
